@@ -63,6 +63,8 @@ func factsMisc() {
 	ap := fn(f, "Reloader", "apply")
 	emitStr("reloaderTracksWrittenOutputs", "pkg/reloader/reloader.go apply: assignment r.lastCfgDirFiles[i][outFile] = … inside the loop over directory entries",
 		tracksWritten(ap))
+	emitList("reloaderHashAssignments", "pkg/reloader/reloader.go: every assignment to r.lastCfgHash / r.lastCfgDirsHash / r.lastWatchedDirsHash (also element-wise, also in New), with where it stands: in the retry closure of apply after the call of r.triggerReload, elsewhere in the closure, in apply outside the closure, or in New",
+		hashAssignments(f))
 	emitStr("reloaderNoReloadCond", "pkg/reloader/reloader.go apply: the condition under which nothing is reloaded",
 		firstIfCond(body(ap), "forceReload"))
 
@@ -182,6 +184,68 @@ func loopSkeleton(fd *ast.FuncDecl, names ...string) []string {
 		})
 	}
 	walk(loop.Body)
+	return r
+}
+
+// hashAssignments lists where the three "last…Hash" fields of the Reloader are written.
+func hashAssignments(f *ast.File) []string {
+	var r []string
+	if f == nil {
+		return []string{"unknown"}
+	}
+	isHashField := func(t string) bool {
+		return strings.HasPrefix(t, "r.lastCfgHash") || strings.HasPrefix(t, "r.lastCfgDirsHash") || strings.HasPrefix(t, "r.lastWatchedDirsHash")
+	}
+	// composite literal of New
+	if nw := fn(f, "", "New"); nw != nil && nw.Body != nil {
+		ast.Inspect(nw.Body, func(n ast.Node) bool {
+			if kv, ok := n.(*ast.KeyValueExpr); ok {
+				k := text(kv.Key)
+				if k == "lastCfgHash" || k == "lastCfgDirsHash" || k == "lastWatchedDirsHash" {
+					r = append(r, "New: "+k+": "+text(kv.Value))
+				}
+			}
+			if a, ok := n.(*ast.AssignStmt); ok && len(a.Lhs) == 1 && isHashField(text(a.Lhs[0])) {
+				r = append(r, "New: "+text(a.Lhs[0])+" = "+text(a.Rhs[0]))
+			}
+			return true
+		})
+	}
+	ap := fn(f, "Reloader", "apply")
+	if ap == nil || ap.Body == nil {
+		return append(r, "unknown")
+	}
+	var walk func(n ast.Node, where string)
+	walk = func(n ast.Node, where string) {
+		triggered := false
+		ast.Inspect(n, func(m ast.Node) bool {
+			switch x := m.(type) {
+			case *ast.FuncLit:
+				walk(x.Body, "closure")
+				return false
+			case *ast.CallExpr:
+				if callName(x) == "r.triggerReload" {
+					triggered = true
+				}
+			case *ast.AssignStmt:
+				for i, l := range x.Lhs {
+					if isHashField(text(l)) {
+						w := where
+						if where == "closure" && triggered {
+							w = "closure after r.triggerReload"
+						}
+						rhs := ""
+						if i < len(x.Rhs) {
+							rhs = text(x.Rhs[i])
+						}
+						r = append(r, w+": "+text(l)+" = "+rhs)
+					}
+				}
+			}
+			return true
+		})
+	}
+	walk(ap.Body, "apply")
 	return r
 }
 
